@@ -906,6 +906,7 @@ impl Sim {
                 }
                 _ => out.line(line, "bad-op"),
             },
+            "devmv" if w.len() == 4 => self.op_devmv(line, w[2], w[3], out),
             "online" => self.op_birth("online", None, out),
             "rebirth" => self.op_birth("rebirth", None, out),
             "drebirth" if w.len() >= 3 => self.op_birth("drebirth", Some(w[2]), out),
@@ -1022,6 +1023,47 @@ impl Sim {
             out.line(line, &outs.join(","));
         } else {
             out.line(line, "bad-op");
+        }
+    }
+
+    /// while the node is offline: unregister device `old` and register `new` with the SAME
+    /// SimpleMetricManager (a clone shares its metrics): the tokens the manager holds must be
+    /// replaced by the next birth's
+    fn op_devmv(&mut self, line: &str, new: &str, old: &str, out: &mut Out) {
+        let (new_n, old_n, handle) = match (unhex_str(new), unhex_str(old), self.handle.clone()) {
+            (Some(a), Some(b), Some(h)) if !self.online => (a, b, h),
+            _ => return out.line(line, "bad-op"),
+        };
+        let movable = matches!(self.devs.get(&old_n), Some((_, Obj { mgr: ObjMgr::Simple { h: SimpleH::Dev(_), .. }, dead: false, .. })));
+        if !movable {
+            return out.line(line, "bad-op");
+        }
+        self.hash_lines(&[new_n.clone()], out);
+        let (_, obj) = self.devs.remove(&old_n).unwrap();
+        self.rt.block_on(async { handle.unregister_device_named(&old_n).await });
+        self.settle();
+        self.new_births();
+        let m = match &obj.mgr {
+            ObjMgr::Simple { h: SimpleH::Dev(m), .. } => m.clone(),
+            _ => unreachable!(),
+        };
+        let _g = self.rt.enter();
+        let res = catch(AssertUnwindSafe(|| handle.register_device(new_n.clone(), m)));
+        drop(_g);
+        match res {
+            Err(_) => out.line(line, "panic"),
+            Ok(Err(e)) => {
+                let e = format!("{:?}", e);
+                out.line(line, if e.starts_with("Duplicate") { "err dup" } else { "err invalid" })
+            }
+            Ok(Ok(dh)) => {
+                dh.enable();
+                self.settle();
+                self.new_births();
+                self.devs.insert(new_n, (dh, Obj { mgr: obj.mgr, dead: false, birth: None, order: vec![] }));
+                out.line(line, "ok");
+                out.count("op:devmv");
+            }
         }
     }
 
@@ -2237,6 +2279,33 @@ fn gen_simple_panics(out: &mut Out) {
     }
 }
 
+/// a SimpleMetricManager moved to another device (different device id, hence different aliases)
+/// between two sessions: what it publishes afterwards must carry the ids of the latest birth
+fn gen_manager_moved(out: &mut Out) {
+    for (a, b) in [("pump-old", "pump-new"), ("d1", "d2"), (H_0[0], H_1[0])] {
+        let ents = format!("{}:a:3:I7:-,{}:n:11:B1:c,{}:a:12:S73:c", h("x"), h("y"), h("z"));
+        let lines = vec![
+            "birth new -".to_string(),
+            "birth node scripted _".into(),
+            format!("birth dev {} simple", h(a)),
+            format!("birth simple {} {}", h(a), ents),
+            "birth online".into(),
+            format!("birth pub {} 0", h(a)),
+            format!("birth pub {} 2", h(a)),
+            "birth offline".into(),
+            format!("birth devmv {} {}", h(b), h(a)),
+            "birth online".into(),
+            format!("birth pub {} 0", h(b)),
+            format!("birth pub {} 1", h(b)),
+            format!("birth pub {} 2", h(b)),
+            format!("birth cmd {} @0", h(b)),
+            format!("birth drebirth {}", h(b)),
+            format!("birth pub {} 2", h(b)),
+        ];
+        run_case(&lines, out, "gen:manager-moved");
+    }
+}
+
 pub fn run(args: &Args, out: &mut Out) -> &'static str {
     install_hook();
     check_constants();
@@ -2247,6 +2316,7 @@ pub fn run(args: &Args, out: &mut Out) -> &'static str {
     gen_registry(out);
     gen_device_ids(out);
     gen_carry(out);
+    gen_manager_moved(out);
     gen_simple_panics(out);
     gen_collisions(out, &mut rng, if th { 40 } else { 12 });
     gen_random(out, &mut rng, if th { 80000 } else { 2000 });
